@@ -58,9 +58,10 @@ type Contract struct {
 	MaxPaths int
 	Alias    [][2]string
 	Lemma    bool
+	Decreases *Clause
 }
 
-var clauseHead = regexp.MustCompile(`^(mode|ghost|requires|ensures|modifies|loop|bound|iface|maynil|inline|trusted|panics-if|nosafety|maxpaths|alias)\b(.*)$`)
+var clauseHead = regexp.MustCompile(`^(mode|ghost|requires|ensures|modifies|loop|bound|iface|maynil|inline|trusted|panics-if|nosafety|maxpaths|alias|decreases)\b(.*)$`)
 var tagRe = regexp.MustCompile(`^\s*\[([^\]]+)\]\s*(.*)$`)
 
 // ParseContractFile parses the //@ lines of one file. pkgPath is the import path of its package.
@@ -205,6 +206,12 @@ func (c *Contract) addClause(head, rest, where string) error {
 			return fmt.Errorf("%s: ghost wants `name type`", where)
 		}
 		c.Ghosts = append(c.Ghosts, Ghost{f[0], f[1]})
+	case "decreases":
+		x, err := parseExpr(strings.TrimSpace(rest), where)
+		if err != nil {
+			return err
+		}
+		c.Decreases = &Clause{Text: strings.TrimSpace(rest), Expr: x, Label: "recursion measure"}
 	case "requires", "ensures", "panics-if":
 		props, label, body := splitTags(rest)
 		x, err := parseExpr(body, where)
